@@ -315,7 +315,7 @@ def e_session(ctx, fzf, sid, group, slow=False):
                 raise Infra("E session %d: pane is %dx%d, wanted %dx%d" % (sid, r["w"], r["h"], case["w"], case["h"]))
             out.append((case, {"rows": r["rows"], "input": None if case["cfg"]["inputless"] else r["st"]["input"], "cy": r["st"]["cy"], "offset": r["st"]["offset"],
                                "multi": r["st"]["multi"], "count": r["st"]["count"], "sel": sorted(r["st"]["sel"]),
-                               "n": len(r["st"]["list"])}))
+                               "n": len(r["st"]["list"])}, r))
         s.post("abort", final=True)
         s.wait_exit(timeout=120)
         return out
@@ -344,17 +344,17 @@ def run_e(ctx, fzf):
     total = bad_groups = 0
     seen_bad = []
     for ix in sorted(results):
-        bad = [(c, got) for c, got in results[ix] if got != e_expected(c)]
+        bad = [(c, got) for c, got, _ in results[ix] if got != e_expected(c)]
         total += len(results[ix])
         if bad:
             seen_bad.append(ix)
     for ix in seen_bad[:4]:
         # reproduce: the same group again, settling slowly
         res2 = e_session(ctx, fzf, 2000 + ix, groups[ix], slow=True)
-        bad2 = [(c, got) for c, got in res2 if got != e_expected(c)]
+        bad2 = [(c, got, r) for c, got, r in res2 if got != e_expected(c)]
         if not bad2:
             raise Infra("E group %d: mismatch not reproduced" % ix)
-        c, got = bad2[0]
+        c, got, rec = bad2[0]
         exp = e_expected(c)
         if {k: got[k] for k in got if k != "rows"} != {k: exp[k] for k in exp if k != "rows"}:
             raise Infra("E group %d: could not put fzf into the exported state: want %s got %s" % (
@@ -363,8 +363,10 @@ def run_e(ctx, fzf):
         what = "%s, %dx%d, state %s: the specification predicts the screen\n%s\nbut the terminal shows\n%s" % (
             scfg.describe(), c["w"], c["h"], json.dumps({k: exp[k] for k in exp if k != "rows"}),
             "\n".join("".join(x) for x in exp["rows"]), "\n".join("".join(x) for x in got["rows"]))
-        ctx.violation(what, {"e_case": c, "got": got, "kf": {"site": "terminal.render", "verdict": "replay",
-                                                               "layout": c["cfg"]["layout"], "info": c["cfg"]["info"]}})
+        # let the specification name the rejection (a named deviation or not)
+        _, jres = judge(ctx, "Judge_Screen", "Judge_Screen.cfg", [rec], "screen-e%d" % ix, workers=2)
+        v = verdicts(jres).get(0, "replay")
+        ctx.violation(what + "\n[%s]" % v, {"e_case": c, "got": got, "record": rec, "verdict": v, "kf": classify(rec, v)})
     ctx.cov["traces_validated_against_impl"] += total
     ctx.cov["evaluations"] += total
     ctx.cov["e_cases_exported"] = len(cases)
@@ -389,8 +391,11 @@ def make_jobs(ctx):
 
 
 def classify(rec, verdict):
-    """Signature of a rejected screen (for known_findings.json)."""
+    """Signature of a rejected screen (for known_findings.json).  A named deviation of the specification (verdict
+    "known <kind>", decided by TLC) gets the signature of that finding; anything else describes the rejection."""
     c = rec["cfg"]
+    if verdict.startswith("known "):
+        return {"site": "printInfoImpl", "kind": verdict.split()[1]}
     return {"site": "terminal.render", "verdict": verdict.split()[0] if verdict else "", "claims": sorted(verdict.split()[1:]),
             "layout": c["layout"], "info": c["info"]}
 
@@ -446,8 +451,10 @@ def run(ctx):
     # (3) TLC judges every recorded screen
     bad, res = judge(ctx, "Judge_Screen", "Judge_Screen.cfg", records, "screen", timeout=3000, workers=8)
     vd = verdicts(res)
-    bad_sessions = sorted({records[i]["sid"] for i in bad})
-    for sid in bad_sessions[:4]:
+    # sessions whose rejection is not a named deviation first, so that a known finding can never crowd out a new one
+    unknown = sorted({records[i]["sid"] for i in bad if not vd.get(i, "").startswith("known ")})
+    known_only = sorted({records[i]["sid"] for i in bad} - set(unknown))
+    for sid in unknown[:5] + known_only[:2]:
         scfg, items, steps, w, h = jobs[sid]
         first = min(i for i in bad if records[i]["sid"] == sid)
         # reproduce: the same session again, settling slowly (the screen is only eventually consistent)
@@ -457,15 +464,21 @@ def run(ctx):
             raise Infra("session %d (%s): rejected screen at step %d (%s) not reproduced" % (
                 sid, scfg.describe(), records[first]["step"], vd.get(first)))
         vd2 = verdicts(res2)
-        r = recs2[bad2[0]]
-        v = vd2.get(bad2[0], "")
-        what = "session %d (%s, %dx%d) step %d: the screen is not the rendition of the state [%s]; state %s; screen:\n%s" % (
-            sid, scfg.describe(), r["w"], r["h"], r["step"], v,
-            json.dumps({k: ("".join(r["st"][k]) if k == "input" else r["st"][k]) for k in ("input", "cy", "offset", "sel", "multi", "count")}),
-            "\n".join("".join(x) for x in r["rows"]))
-        case = {"session": {"cfg": scfg.to_json(), "items": items, "steps": steps, "width": w, "height": h}, "record": r,
-                "verdict": v, "kf": classify(r, v)}
-        ctx.violation(what, case)
+        reported = set()
+        for b in bad2:
+            r = recs2[b]
+            v = vd2.get(b, "")
+            if v in reported:
+                continue
+            reported.add(v)
+            what = "session %d (%s, %dx%d) step %d: the screen is not the rendition of the state [%s]; state %s; screen:\n%s" % (
+                sid, scfg.describe(), r["w"], r["h"], r["step"], v,
+                json.dumps({k: ("".join(r["st"][k]) if k == "input" else r["st"][k])
+                            for k in ("input", "cy", "offset", "sel", "multi", "count", "track")}),
+                "\n".join("".join(x) for x in r["rows"]))
+            case = {"session": {"cfg": scfg.to_json(), "items": items, "steps": steps, "width": w, "height": h}, "record": r,
+                    "verdict": v, "kf": classify(r, v)}
+            ctx.violation(what, case)
     # evidence
     distinct = set()
     shapes = {}
